@@ -302,6 +302,20 @@ fn extract_fn(cx: &mut Ctx, specs: &mut Specs, em: &mut Emitter, ex: &Extract) {
     let fd = &found[0];
     let base_name = ex.path.rsplit("::").next().unwrap().to_string();
     let mut f = fd.f.clone();
+    let mut tr_generics: Option<syn::Generics> = None;
+    if let Some(tr) = &fd.tr {
+        // S3: a default method of a trait becomes a free function over `SelfT: Trait`
+        cx.fire("S3");
+        f.sig = syn::parse2(rename_self(f.sig.to_token_stream())).expect("sig");
+        f.block = syn::parse2(rename_self(f.block.to_token_stream())).expect("block");
+        let tg: syn::Generics = syn::parse2(rename_self(tr.generics.to_token_stream())).expect("generics");
+        let tname = &tr.ident;
+        let targs: Vec<TokenStream> = tg.params.iter().filter_map(|p| match p { syn::GenericParam::Type(t) => Some(t.ident.to_token_stream()), _ => None }).collect();
+        let bound: TokenStream = if targs.is_empty() { quote!(#tname) } else { quote!(#tname<#(#targs),*>) };
+        let mut g: syn::Generics = syn::parse_quote!(<SelfT: #bound>);
+        for p in tg.params.iter() { g.params.push(p.clone()); }
+        tr_generics = Some(g);
+    }
     let src_line = f.sig.ident.span().start().line;
 
     // A3: lift the k-th async block
@@ -381,7 +395,7 @@ fn extract_fn(cx: &mut Ctx, specs: &mut Specs, em: &mut Emitter, ex: &Extract) {
     let mut gens: Vec<&syn::Generics> = vec![];
     let impl_gen; let tr_gen;
     if lifted || fd.im.is_none() { if let Some(im) = &fd.im { impl_gen = im.generics.clone(); gens.push(&impl_gen); } }
-    if let Some(tr) = &fd.tr { tr_gen = tr.generics.clone(); gens.push(&tr_gen); }
+    if let Some(g) = &tr_generics { tr_gen = g.clone(); gens.push(&tr_gen); }
     gens.push(&f.sig.generics);
     let (gtxt, mut wtxt) = generics_text(&gens, &lifetimes, cx);
     if let Some(w) = specs.get(&format!("where {}", name)) { let w = w.trim(); if !w.is_empty() { wtxt = if wtxt.is_empty() { format!("\n    where {}", w) } else { format!("{}, {}", wtxt, w) }; } }
@@ -389,8 +403,8 @@ fn extract_fn(cx: &mut Ctx, specs: &mut Specs, em: &mut Emitter, ex: &Extract) {
 
     let in_impl = !lifted && fd.im.is_some();
     let in_trait_impl = in_impl && fd.im.as_ref().unwrap().trait_.is_some();
-    let name = if in_trait_impl { ex.path.clone() } else { name };
-    let fn_ident = if in_trait_impl { base_name.clone() } else { name.clone() };
+    let name = if in_impl { ex.path.clone() } else { name };
+    let fn_ident = if in_impl { base_name.clone() } else { name.clone() };
     let indent = if in_impl { "    " } else { "" };
 
     // ---- emit
@@ -433,6 +447,7 @@ fn extract_struct(cx: &mut Ctx, specs: &mut Specs, em: &mut Emitter, ex: &Extrac
                 let (g, w) = generics_text(&[&st.generics], &[], cx);
                 em.comment(&format!("// @extracted struct `{}` from {}:{}", ex.path, ex.file, src_line));
                 if let Some(attrs) = specs.get(&format!("attrs {}", ex.path)) { em.raw_block(&attrs, ""); }
+                let kept = kept_derives(&st.attrs); if !kept.is_empty() { em.raw(&format!("#[derive({})]", kept.join(", "))); }
                 let mut fl = vec![]; let mut own = String::from("own_none()");
                 let mut tuple = false;
                 for (i, f) in st.fields.iter().enumerate() {
@@ -443,6 +458,11 @@ fn extract_struct(cx: &mut Ctx, specs: &mut Specs, em: &mut Emitter, ex: &Extrac
                 if tuple { em.raw(&format!("pub struct {}{}({}){};", st.ident, g, fl.join(", "), w)); }
                 else if fl.is_empty() { em.raw(&format!("pub struct {}{}{};", st.ident, g, w)); }
                 else { em.raw(&format!("pub struct {}{}{} {{", st.ident, g, w)); for l in &fl { em.raw(l); } em.raw("}"); }
+                if ex.opt("own").as_deref() == Some("none") {
+                    let targs: Vec<String> = st.generics.params.iter().filter_map(|p| match p { syn::GenericParam::Type(t) => Some(t.ident.to_string()), syn::GenericParam::Lifetime(l) => Some(l.lifetime.to_string()), _ => None }).collect();
+                    let ta = if targs.is_empty() { String::new() } else { format!("<{}>", targs.join(", ")) };
+                    em.raw(&format!("impl{} OwnView for {}{}{} {{ open spec fn own(&self) -> Own {{ own_none() }} }}", g, st.ident, ta, w));
+                }
                 if ex.opt("own").as_deref() == Some("derive") {
                     cx.fire("G3");
                     let targs: Vec<String> = st.generics.params.iter().filter_map(|p| match p { syn::GenericParam::Type(t) => Some(t.ident.to_string()), syn::GenericParam::Lifetime(l) => Some(l.lifetime.to_string()), _ => None }).collect();
@@ -490,6 +510,19 @@ fn extract_struct(cx: &mut Ctx, specs: &mut Specs, em: &mut Emitter, ex: &Extrac
         }
     }
     cx.err(format!("lost anchor: {} `{}` in {}", ex.kind, ex.path, ex.file));
+}
+
+fn kept_derives(attrs: &[syn::Attribute]) -> Vec<String> {
+    let mut out = vec![];
+    for a in attrs { if a.path().is_ident("derive") { if let syn::Meta::List(ml) = &a.meta { for t in ml.tokens.clone() { if let proc_macro2::TokenTree::Ident(i) = t { let s = i.to_string(); if s == "Clone" || s == "Copy" { out.push(s); } } } } } }
+    out
+}
+fn rename_self(ts: TokenStream) -> TokenStream {
+    ts.into_iter().map(|t| match t {
+        proc_macro2::TokenTree::Ident(i) if i == "Self" => proc_macro2::TokenTree::Ident(proc_macro2::Ident::new("SelfT", i.span())),
+        proc_macro2::TokenTree::Group(g) => { let mut ng = proc_macro2::Group::new(g.delimiter(), rename_self(g.stream())); ng.set_span(g.span()); proc_macro2::TokenTree::Group(ng) }
+        other => other,
+    }).collect()
 }
 
 /// shape check of client traits (DESIGN §5.2): method names, receiver kind and parameter count must match the prelude's model
